@@ -129,11 +129,10 @@ Theorem C05_every_micro_state_satisfies_every_state_clause_every_instance :
          (a : Z) (r' : result) (m' : mw) (lg : mlog),
     inst_nonneg_b i = true ->
     clock_b x0 = true -> wfs_b i x0 = true -> fresh2_b i x0 = true -> nodep_b x0 = true -> pre_ok_b x0 = true ->
-    agv_phase_b x0 = true -> agv_load_b x0 = true -> claims_b x0 = true -> depk_b x0 = true ->
-    outages_b x0 && outage_nonneg_b x0 = true ->
+    agv_phase_b x0 = true -> outages_b x0 && outage_nonneg_b x0 = true ->
     (forall m0 ms, nth_error (s_machs x0) m0 = Some ms -> m_tool ms = tool0 m0) ->
     reach sigma i fuel x0 joker0 ta r m -> mw_step sigma i fuel r m a = MOk r' m' lg ->
     forall tr y, In (tr, y) lg -> forallb (fun b => b) (clause_vector_live i y) = true.
-Proof. intros sigma i tool0 fuel x0 joker0 ta r m a r' m' lg Hnn. apply (run_micro_clause_vector sigma i Hnn). Qed.
+Proof. intros sigma i tool0 fuel x0 joker0 ta r m a r' m' lg Hnn. apply (run_micro_clause_vector' sigma i Hnn). Qed.
 Print Assumptions C05_every_micro_state_satisfies_every_state_clause_every_instance.
 
